@@ -4,7 +4,8 @@
    "monotone bodies" is the semantic predicate [monotone_prog]. *)
 From Salsa Require Import Base.
 From Salsa.Core Require Import Model Spec.
-From Salsa.Cycle Require Import Spec SpecProofs.
+From Salsa.Core Require Import Dsl.
+From Salsa.Cycle Require Import Spec SpecProofs DslSpec DslProofs.
 From Salsa.Cycle Require Cert Examples.
 
 (* The specification is well defined and is what the property names: [kleene] satisfies every
@@ -57,6 +58,19 @@ Check C12_certified : forall (prog : qkey -> body) (ns : list qkey) (s : Salsa.C
   (forall q v, Cert.final_val s q = Some v -> le_bits v (kleene prog (Cert.csnap_of s) ns q)) ->
   forall q v, In q ns -> Cert.final_val s q = Some v -> v = kleene prog (Cert.csnap_of s) ns q.
 Print Assumptions C12_certified.
+
+(* The hypotheses are not vacuous and not special: EVERY program of the `cycles` profile — DSL
+   expressions (Core/Dsl.v) built from byte literals, input reads, union, intersection, calls with
+   input-computed keys and input-controlled branches; the decidable class [mono_table], evaluated
+   by the driver on every generated case — compiles to monotone, byte-valued bodies. *)
+Theorem C12_profile_programs_monotone : forall (nk : N) (tbl : list (qkey * expr)) (sn : snapshot),
+  mono_table tbl = true -> (forall i, sn_in sn i < 256) ->
+  monotone_prog (prog_of nk tbl) sn /\ fits8 (prog_of nk tbl) sn.
+Proof. intros nk tbl sn Ht Hin. split; [now apply dsl_monotone | now apply dsl_fits8]. Qed.
+Check C12_profile_programs_monotone : forall (nk : N) (tbl : list (qkey * expr)) (sn : snapshot),
+  mono_table tbl = true -> (forall i, sn_in sn i < 256) ->
+  monotone_prog (prog_of nk tbl) sn /\ fits8 (prog_of nk tbl) sn.
+Print Assumptions C12_profile_programs_monotone.
 
 (* NOT PROVED (kept visible): the two statements that would close C12 over the model for all
    programs and histories.  They are checked per generated run by the correspondence engine
